@@ -5,7 +5,7 @@ def is_ssl_handshake(buf):
     """Detect an SSLv2 or SSLv3 handshake"""
     # SSLv3, TLS 1.1 - 1.3
     v = buf[:3]
-    if v in ('\x16\x03\x00', '\x16\x03\x01', '\x16\x03\x02', '\x16\x03\x03', '\x16\x03\x04'):
+    if v in (b'\x16\x03\x00', b'\x16\x03\x01', b'\x16\x03\x02', b'\x16\x03\x03', b'\x16\x03\x04'):
         return True
 
     # SSLv2
